@@ -310,6 +310,10 @@ def grad_diff(ans, a, n=1, axis=-1):
             return g
         return helper(undiff(g), n - 1)
 
+    if n > anp.shape(a)[axis]:
+        # more differences than elements: the (empty) result does not depend on a
+        return lambda g: anp.zeros(anp.shape(a))
+
     return lambda g: helper(g, n)
 
 
